@@ -131,7 +131,7 @@ theorem good_runActs {go} (hgo : GoOk go) {d id acts s} (hpre : Pre d s (.runAct
     · have hf' : hasFinish rest = false := by simpa using hf
       simp only [hasFinish, hf', Bool.false_eq_true, ↓reduceIte, sends] at hpre
       rcases runActs_send hgo (spec := spec) hw hf' hpre.1 (hpre.2 (by omega))
-        (fun s' st => if st == .ok then s'.modClient id fun c =>
+        (fun s' st => if st == .ok && s'.byQid.any (·.1 == (genQid 70000 s).1) then s'.modClient id fun c =>
           if slot == 0 then { c with qidA := (genQid 70000 s).1 } else { c with qidAAAA := (genQid 70000 s).1 } else s')
         (fun s' st => by
           split
